@@ -433,6 +433,23 @@ def decrypt (P : Prims) (h : Handler) (objid genno : Nat) (isMetadata : Bool) (d
     | some m => applyMethod P h m objid genno data
     | none => data            -- unreachable: `openHandler` checked `strf ∈ cfm`
 
+/-- The decision `decrypt` takes, as a table over (handler class, EncryptMetadata, "attrs is given
+    and its Type is /Metadata", crypt filter named by StrF): which cipher handles this piece of data.
+    pdfminer has no per-stream override (`name` is never passed; a `/Crypt` entry in a stream's
+    `Filter` array raises PDFNotImplementedError later, in `PDFStream.decode`), and StmF = StrF is
+    enforced by `init_params`, so strings and streams use the same filter.
+    `none` = StrF names no entry of `cfm` (excluded by `init_params`, see `openHandler_method`). -/
+def selectMethod (h : Handler) (isMetadata : Bool) : Option Method :=
+  if h.cls = 1 then some .rc4
+  else if ¬ h.encryptMetadata ∧ isMetadata then some .identity
+  else lookup h.strf h.cfm
+
+def Method.name : Method → String
+  | .rc4 => "rc4"
+  | .aes128 => "aes128"
+  | .aes256 => "aes256"
+  | .identity => "identity"
+
 /-! ## where decryption is applied -/
 
 inductive Obj where
